@@ -277,10 +277,18 @@ Definition fetch (c : client) (ke : ke_result) : option (client * client) :=
   end.
 Definition fetch_failed : client := client0.
 
+(* net/ntske/fetcher.go: MaxStoredCookies *)
+Definition MaxStoredCookies : Z := 8.
+
 (* func (f *Fetcher) StoreCookie, called by ProcessResponse for every cookie of the
-   response: cookies longer than MaxCookieLen are ignored *)
+   response: cookies longer than MaxCookieLen are ignored, and so is every cookie
+   once MaxStoredCookies are cached *)
+Definition store_cookie (p : list bytes) (c : bytes) : list bytes :=
+  if negb (cookie_len_ok c) then p
+  else if MaxStoredCookies <=? zlen p then p
+  else p ++ [c].
 Definition store (c : client) (cookies : list bytes) : client :=
-  {| pool := pool c ++ filter cookie_len_ok cookies; c2s := c2s c; s2c := s2c c |}.
+  {| pool := fold_left store_cookie cookies (pool c); c2s := c2s c; s2c := s2c c |}.
 
 (* ---- the three parts of an exchange, as the check executes them on the observed datagrams ---- *)
 Fixpoint bytes_eq (a b : bytes) : bool :=
